@@ -596,6 +596,11 @@ func (r *scanner) checkCompactRace(ctx context.Context, revision uint64, compact
 	if compact {
 		// compact operation, just try to set the compact revision
 		// if it's error, try next time
+		// never lower it: an older compaction request must not re-open reads below the floor
+		if val, getErr := r.store.Get(ctx, r.config.CompactKey); getErr == nil && len(val) >= 8 &&
+			binary.BigEndian.Uint64(val) >= revision {
+			return nil
+		}
 		bs := make([]byte, 8)
 		binary.BigEndian.PutUint64(bs, revision)
 		batch := r.store.BeginBatchWrite()
